@@ -24,6 +24,9 @@ type Eval struct {
 	calleePkg string
 	pkg       *types.Package
 	errs      []string
+	assuming  bool      // the formula will be assumed: well-typedness premises are not added under quantifiers
+	canEmit   bool      // may add assertions to the script (function context)
+	pending   *[]string // well-typedness facts about memory reads in the expression being evaluated
 }
 
 type evalErr string
@@ -33,7 +36,7 @@ func (ev *Eval) fail(f string, a ...interface{}) {
 }
 
 func (fe *FnEnc) newEval(mem, old *Mem, env map[string]Val) *Eval {
-	ev := &Eval{fe: fe, s: fe.s, g: fe.g, mem: mem, old: old, env: env, bound: map[string]Val{}}
+	ev := &Eval{fe: fe, s: fe.s, g: fe.g, mem: mem, old: old, env: env, bound: map[string]Val{}, canEmit: true, pending: &[]string{}}
 	if fe.top.fn != nil && fe.top.fn.Pkg != nil {
 		ev.pkg = fe.top.fn.Pkg.Pkg
 	}
@@ -66,7 +69,37 @@ func (ev *Eval) evalBool(e Expr) (res string) {
 	if v.Term == "" {
 		ev.fail("expression is not Boolean")
 	}
+	ev.flushPending()
 	return v.Term
+}
+
+// flushPending asserts the collected well-typedness facts (true of every real memory).
+func (ev *Eval) flushPending() {
+	if ev.pending == nil {
+		return
+	}
+	if ev.canEmit {
+		seen := map[string]bool{}
+		for _, f := range *ev.pending {
+			if !seen[f] {
+				seen[f] = true
+				ev.s.assert(f)
+			}
+		}
+	}
+	*ev.pending = (*ev.pending)[:0]
+}
+
+func (ev *Eval) noteRange(t types.Type, term string) {
+	if ev.pending == nil || t == nil {
+		return
+	}
+	if _, _, ok := intInfo(t); !ok {
+		return
+	}
+	if f := ev.s.rangeFact(t, term); f != "" {
+		*ev.pending = append(*ev.pending, f)
+	}
 }
 
 // evalAssume evaluates an expression that will be assumed: on an evaluation
@@ -74,7 +107,9 @@ func (ev *Eval) evalBool(e Expr) (res string) {
 // function's #bind obligation fails instead of the assumption becoming false.
 func (ev *Eval) evalAssume(e Expr) string {
 	n := len(ev.fe.top.bindErrs)
+	ev.assuming = true
 	t := ev.evalBool(e)
+	ev.assuming = false
 	if len(ev.fe.top.bindErrs) > n {
 		return "true"
 	}
@@ -92,7 +127,9 @@ func (ev *Eval) evalTerm(e Expr) (res string) {
 			panic(r)
 		}
 	}()
-	return ev.term(ev.eval(e))
+	t := ev.term(ev.eval(e))
+	ev.flushPending()
+	return t
 }
 
 // term materializes a Val in the evaluator's memory.
@@ -321,7 +358,33 @@ func (ev *Eval) eval(e Expr) Val {
 			decls = append(decls, "("+n+" "+srt+")")
 			sub.bound[v] = sub.wrapSpec(n, srt, gt)
 		}
+		var inner []string
+		if ev.pending != nil {
+			sub.pending = &inner
+		}
 		body := sub.term(sub.eval(x.Body))
+		// facts that mention a bound variable become premises of the body; others go outward
+		var prem []string
+		for _, f := range inner {
+			mentions := false
+			for _, v := range x.Vars {
+				if strings.Contains(f, "q_"+v+" ") || strings.Contains(f, "q_"+v+")") {
+					mentions = true
+				}
+			}
+			if mentions {
+				prem = append(prem, f)
+			} else if ev.pending != nil {
+				*ev.pending = append(*ev.pending, f)
+			}
+		}
+		if len(prem) > 0 && !ev.assuming {
+			if x.Forall {
+				body = "(=> " + and(prem...) + " " + body + ")"
+			} else {
+				body = "(and " + and(prem...) + " " + body + ")"
+			}
+		}
 		q := "exists"
 		if x.Forall {
 			q = "forall"
@@ -385,7 +448,9 @@ func (ev *Eval) readAddr(a *Addr, t types.Type) Val {
 	case *types.Map:
 		return Val{T: t, Map: &MapV{Origin: a, T: u}, lval: a}
 	}
-	return Val{T: t, Term: s.load(ev.mem, a), lval: a}
+	x := s.load(ev.mem, a)
+	ev.noteRange(t, x)
+	return Val{T: t, Term: x, lval: a}
 }
 
 func (ev *Eval) selField(base Val, f string) Val {
@@ -443,6 +508,9 @@ func (ev *Eval) selField(base Val, f string) Val {
 
 // valueOf wraps a pure term of Go type t (slices become spec sequences).
 func (ev *Eval) valueOf(x string, t types.Type) Val {
+	if t == nil {
+		return Val{Term: x}
+	}
 	switch u := types.Unalias(t).Underlying().(type) {
 	case *types.Slice:
 		return Val{T: t, Term: x, seqElem: u.Elem(), seqES: ev.s.sortOf(u.Elem())}
